@@ -146,6 +146,8 @@ pub struct Engine {
     pub start: Instant,
     pub verif_root: String,
     pub workers: usize,
+    /// override of proptest's max_shrink_iters for expensive cases
+    pub max_shrink: Option<u32>,
 }
 
 thread_local! {
@@ -206,6 +208,7 @@ impl Engine {
             start: Instant::now(),
             verif_root: verif_root.to_string(),
             workers: std::env::var("VERIF_WORKERS").ok().and_then(|s| s.parse().ok()).unwrap_or(WORKERS),
+            max_shrink: None,
         }
     }
     pub fn assume(&mut self, s: &str) {
@@ -314,6 +317,7 @@ impl Engine {
             self.known.iter().filter(|k| k.property == self.id && k.status == "known").map(|k| k.signature.clone()).collect();
         let known_hits = &self.known_hits;
         let (id, seed) = (self.id.clone(), self.seed);
+        let max_shrink = self.max_shrink;
         let f = &f;
         let strat = &strat;
         std::thread::scope(|sc| {
@@ -328,7 +332,7 @@ impl Engine {
                             cases: share as u32,
                             failure_persistence: None,
                             rng_seed: RngSeed::Fixed(ws),
-                            max_shrink_iters: if thorough { 600 } else { 300 },
+                            max_shrink_iters: max_shrink.unwrap_or(if thorough { 600 } else { 300 }),
                             max_global_rejects: 100_000,
                             ..Config::default()
                         };
